@@ -158,6 +158,7 @@ func leakInvariant(w *World) func() string {
 			}
 		}
 		liveClient, liveServer := 0, 0
+		tablesApp, stablesApp := 0, 0 // table entries, not counting nested tunnels' carrier streams
 		var tables, stables int
 		for _, o := range w.S.Tracked() {
 			v := reflect.ValueOf(o)
@@ -176,10 +177,12 @@ func leakInvariant(w *World) func() string {
 			case "tunnelChannel":
 				if f := v.FieldByName("streams"); f.IsValid() {
 					tables += f.Len()
+					tablesApp += appEntries(f)
 				}
 			case "tunnelServer":
 				if f := v.FieldByName("streams"); f.IsValid() {
 					stables += f.Len()
+					stablesApp += appEntries(f)
 				}
 			}
 		}
@@ -188,6 +191,39 @@ func leakInvariant(w *World) func() string {
 		}
 		if stables > liveServer {
 			return fmt.Sprintf("server stream tables hold %d entries but only %d server streams are unfinished", stables, liveServer)
+		}
+		// "the tables contain exactly the RPCs still in flight": an RPC whose caller has got its
+		// terminal result (Invoke returned, or RecvMsg returned an error) is not in flight, and
+		// neither is one whose handler has returned
+		started, terminal, invoked, returned := map[string]bool{}, map[string]bool{}, 0, 0
+		for _, e := range w.Events {
+			switch {
+			case strings.HasPrefix(e.Actor, "caller:"):
+				switch {
+				case e.Op == "new" && e.OK(), e.Op == "send-begin":
+					started[e.Actor] = true
+				case e.Op == "invoke", e.Op == "recv" && !e.OK():
+					terminal[e.Actor] = true
+				}
+			case strings.HasPrefix(e.Actor, "handler:"):
+				if e.Op == "invoked" {
+					invoked++
+				} else if e.Op == "returned" {
+					returned++
+				}
+			}
+		}
+		inflight := 0
+		for a := range started {
+			if !terminal[a] {
+				inflight++
+			}
+		}
+		if tablesApp > inflight {
+			return fmt.Sprintf("client stream tables hold %d RPCs but only %d RPCs are still in flight at their callers (the others have got their terminal result)", tablesApp, inflight)
+		}
+		if stablesApp > invoked-returned {
+			return fmt.Sprintf("server stream tables hold %d RPCs but only %d handlers are still running", stablesApp, invoked-returned)
 		}
 		watchers, handlers := 0, 0
 		for _, th := range w.S.Threads {
@@ -212,6 +248,27 @@ func leakInvariant(w *World) func() string {
 		}
 		return ""
 	}
+}
+
+// appEntries counts the entries of a stream table (map id -> *stream) that are application
+// RPCs (the carrier stream of a nested tunnel is an RPC of the library itself).
+func appEntries(m reflect.Value) int {
+	n := 0
+	it := m.MapRange()
+	for it.Next() {
+		v := it.Value()
+		for v.Kind() == reflect.Pointer && !v.IsNil() {
+			v = v.Elem()
+		}
+		if v.Kind() != reflect.Struct {
+			n++
+			continue
+		}
+		if f := v.FieldByName("method"); !f.IsValid() || !strings.Contains(f.String(), "TunnelService") {
+			n++
+		}
+	}
+	return n
 }
 
 func leakGlobal(sc *Scenario, w *World, x *Exec) []Violation {
@@ -370,7 +427,7 @@ func c14Scenarios(tier string) []*Scenario {
 		// the histories that open a stream first (the ones that allocate per-RPC state)
 		return strings.HasPrefix(n, "c14/union/c09/h1s/N0B,") || strings.HasPrefix(n, "c14/union/c09/h1c/Hd1,") || strings.HasPrefix(n, "c14/union/c09/h1c/Msg1")
 	})
-	add(c16Scenarios(ut), func(n string) bool { return strings.Contains(n, "/c16/a/") })
+	add(c16Scenarios(ut), func(n string) bool { return strings.Contains(n, "/c16/a/") || strings.Contains(n, "/noclose/") })
 	return scs
 }
 
@@ -380,7 +437,7 @@ func init() {
 		Globals:   []func(*Scenario, *World, *Exec) []Violation{ProtoMonitor},
 		Scenarios: c13Scenarios})
 	register(&PropDef{ID: "C14", Level: "model_checking",
-		Rule:      "after the tear-down of every execution: no thread of the library left, no goroutine left in the bubble, every tunnelChannel / tunnelServer stream table empty, reverse registries empty (read through reflection over objects recorded at allocation); at every idle quiescent point: tables hold only unfinished streams and per-RPC goroutines are accounted for by unfinished streams; dedicated histories (RPCs whose contexts are never cancelled started around a carrier failure / Close / context cancel; a reverse tunnel stopped or cancelled while it is being opened and registered, at lock granularity of the registry code) and the union of the termination-heavy scenario families (C04 every cause at every point, C07 cancel/deadline at every point, C10 shutdown, C03 disturbers, C01 termination, C09 peer histories that open streams, C16 raw request sequences), each at its own bound",
+		Rule:      "after the tear-down of every execution: no thread of the library left, no goroutine left in the bubble, every tunnelChannel / tunnelServer stream table empty, reverse registries empty (read through reflection over objects recorded at allocation); at every idle quiescent point: tables hold only unfinished streams and per-RPC goroutines are accounted for by unfinished streams; dedicated histories (RPCs whose contexts are never cancelled started around a carrier failure / Close / context cancel; a reverse tunnel stopped or cancelled while it is being opened and registered, at lock granularity of the registry code) and the union of the termination-heavy scenario families (C04 every cause at every point, C07 cancel/deadline at every point, C10 shutdown, C03 disturbers, C01 termination, C09 peer histories that open streams, C16 raw request sequences and unclosed multi-response sequences), each at its own bound; at idle points additionally: client table entries <= RPCs whose caller has no terminal result yet, server table entries <= handlers still running",
 		Globals:   []func(*Scenario, *World, *Exec) []Violation{leakGlobal},
 		Scenarios: c14Scenarios})
 }
